@@ -1415,3 +1415,135 @@ Theorem hash_fit_refuted :
     forallb ob_err (run wit_digest true scoped revert_steps (init_world wit_spec no_peers) [] [])
       = false.
 Proof. intros [|]; vm_compute; repeat split; discriminate. Qed.
+
+(** ** The constraint list is a conjunction, whatever its order *)
+From Coq Require Import Permutation.
+
+(** an entry is satisfied: a platformVersion constraint for another platform is neutral *)
+Definition entry_met (c : centry) : bool :=
+  match c with
+  | CPlatform met => met
+  | CVersion _ _ applies met => negb applies || met
+  | CUniqueInScope => true
+  end.
+(** an entry can be evaluated *)
+Definition entry_parses (c : centry) : bool :=
+  match c with CVersion _ parses _ _ => parses | _ => true end.
+
+Definition constraints_met (cs : list centry) : bool := forallb entry_met cs.
+Definition constraints_evaluable (cs : list centry) : bool := forallb entry_parses cs.
+
+(** the message an entry contributes *)
+Definition entry_msgs (c : centry) : list ckind :=
+  match c with
+  | CPlatform met => if met then [] else [KPlatform]
+  | CVersion k _ applies met => if negb applies || met then [] else [k]
+  | CUniqueInScope => []
+  end.
+
+Lemma constraint_loop_spec cs : forall msgs,
+  constraint_loop cs msgs =
+    if constraints_evaluable cs then Some (msgs ++ flat_map entry_msgs cs) else None.
+Proof.
+  unfold constraints_evaluable. induction cs as [|c cs IH]; intros msgs; cbn.
+  - now rewrite app_nil_r.
+  - destruct c as [met|k parses applies met|]; cbn.
+    + rewrite IH. destruct (forallb entry_parses cs); [|reflexivity]. destruct met; cbn; [reflexivity|now rewrite <- app_assoc].
+    + destruct parses; cbn; [|reflexivity]. destruct applies; cbn.
+      * rewrite IH. destruct (forallb entry_parses cs); [|reflexivity]. destruct met; cbn; [reflexivity|now rewrite <- app_assoc].
+      * apply IH.
+    + apply IH.
+Qed.
+
+Lemma msgs_nil_met cs : is_nil (flat_map entry_msgs cs) = constraints_met cs.
+Proof.
+  induction cs as [|c cs IH]; cbn; [reflexivity|].
+  destruct c as [met|k parses applies met|]; cbn.
+  - destruct met; cbn; [exact IH|reflexivity].
+  - destruct (negb applies || met); cbn; [exact IH|reflexivity].
+  - exact IH.
+Qed.
+
+(** The oracle built from a constraint list: evaluable iff every entry parses; no message iff
+    every entry is met (non-applicable version ranges are neutral); uniqueInScope iff listed. *)
+Theorem mk_oracle_constraints pull load cs cfg images render :
+  let o := mk_oracle pull load cs cfg images render in
+  o_range_ok o = constraints_evaluable cs /\
+  (constraints_evaluable cs = true -> is_nil (o_unmet o) = constraints_met cs) /\
+  is_some (o_unique o) = existsb is_unique_entry cs.
+Proof.
+  cbn. rewrite constraint_loop_spec. destruct (constraints_evaluable cs); cbn.
+  - repeat split; [intros _; apply msgs_nil_met|now destruct (existsb is_unique_entry cs)].
+  - repeat split; [discriminate|now destruct (existsb is_unique_entry cs)].
+Qed.
+
+Lemma forallb_perm {A} (f : A -> bool) l l' : Permutation l l' -> forallb f l = forallb f l'.
+Proof.
+  intros H. induction H as [|x l l' H IH|x y l|l l' l'' H1 IH1 H2 IH2]; cbn.
+  - reflexivity.
+  - now rewrite IH.
+  - destruct (f x), (f y); reflexivity.
+  - congruence.
+Qed.
+
+Lemma existsb_perm {A} (f : A -> bool) l l' : Permutation l l' -> existsb f l = existsb f l'.
+Proof.
+  intros H. induction H as [|x l l' H IH|x y l|l l' l'' H1 IH1 H2 IH2]; cbn.
+  - reflexivity.
+  - now rewrite IH.
+  - destruct (f x), (f y); reflexivity.
+  - congruence.
+Qed.
+
+(** What the pass depends on is invariant under reordering the list: whether the constraints can
+    be evaluated, whether all are met, whether uniqueness is required - hence so are "unmet",
+    "cannot be evaluated" and "valid and admissible" among any peers. *)
+Theorem constraints_permutation pull load cs cs' cfg images render sc ps :
+  Permutation cs cs' ->
+  let o := seen sc ps (mk_oracle pull load cs cfg images render) in
+  let o' := seen sc ps (mk_oracle pull load cs' cfg images render) in
+  unmet o = unmet o' /\ cons_err o = cons_err o' /\ all_ok o = all_ok o' /\
+  forall fixed, deployable fixed o = deployable fixed o'.
+Proof.
+  intros Hp.
+  assert (He := forallb_perm entry_parses _ _ Hp). assert (Hm := forallb_perm entry_met _ _ Hp).
+  assert (Hu := existsb_perm is_unique_entry _ _ Hp).
+  fold (constraints_evaluable cs) (constraints_evaluable cs') in He. fold (constraints_met cs) (constraints_met cs') in Hm.
+  assert (Hcore : forall c, 
+            unmet (seen sc ps (mk_oracle pull load c cfg images render)) =
+              (constraints_evaluable c && negb (constraints_met c)) ||
+              (existsb is_unique_entry c && (2 <=? listed sc ps)) /\
+            cons_err (seen sc ps (mk_oracle pull load c cfg images render)) =
+              negb (constraints_evaluable c) || (existsb is_unique_entry c && (listed sc ps =? 0))).
+  { intros c. unfold unmet, cons_err, unique_unmet, unique_err, seen, mk_oracle. cbn.
+    rewrite constraint_loop_spec. destruct (existsb is_unique_entry c); cbn;
+      destruct (constraints_evaluable c); cbn; rewrite ?msgs_nil_met, ?orb_false_r; split; reflexivity. }
+  destruct (Hcore cs) as [U1 E1]. destruct (Hcore cs') as [U2 E2].
+  assert (HU : unmet (seen sc ps (mk_oracle pull load cs cfg images render)) = unmet (seen sc ps (mk_oracle pull load cs' cfg images render)))
+    by (rewrite U1, U2, He, Hm, Hu; reflexivity).
+  assert (HE : cons_err (seen sc ps (mk_oracle pull load cs cfg images render)) = cons_err (seen sc ps (mk_oracle pull load cs' cfg images render)))
+    by (rewrite E1, E2, He, Hu; reflexivity).
+  assert (HS : stages_ok (seen sc ps (mk_oracle pull load cs cfg images render)) = stages_ok (seen sc ps (mk_oracle pull load cs' cfg images render))).
+  { unfold stages_ok. rewrite HE. unfold seen, mk_oracle, config_ok. cbn.
+    destruct (existsb is_unique_entry cs), (existsb is_unique_entry cs'); reflexivity. }
+  cbn zeta. repeat split; try assumption.
+  - unfold all_ok. now rewrite HS, HU.
+  - intros fixed. unfold deployable, all_ok. rewrite HS, HU. reflexivity.
+Qed.
+
+(** One unmet entry anywhere in the list - before or after entries that are met, that belong to
+    another platform, or that ask for uniqueness - blocks the deployment write. *)
+Theorem unmet_entry_blocks digest scoped pull load cs cfg images render w f d :
+  constraints_evaluable cs = true -> constraints_met cs = false ->
+  let r := do_pass digest true scoped (mk_oracle pull load cs cfg images render) w f d in
+  none_of is_od_write (st_log (r_st r)) = true /\ od_tmpl (st_w (r_st r)) = od_tmpl w.
+Proof.
+  intros He Hm r.
+  assert (Hun : unmet (seen scoped (w_peers w) (mk_oracle pull load cs cfg images render)) = true).
+  { unfold unmet, seen, mk_oracle. cbn. rewrite constraint_loop_spec, He.
+    destruct (existsb is_unique_entry cs); cbn; rewrite msgs_nil_met, Hm; reflexivity. }
+  destruct (invalid_no_deploy_unmet digest _ {| st_w := w; st_f := f; st_d := d; st_dirty := false; st_log := [] |} Hun)
+    as (l & Hl & Hn & Ht).
+  unfold new_events in Hl. cbn in Hl. split; [|exact Ht].
+  unfold r, do_pass. unfold pass_gen in Hl. now rewrite Hl.
+Qed.
